@@ -28,7 +28,10 @@ def wformat(template, dct):
     assert template is not None
     try:
         return fmt.vformat(template, None, dct)
-    except AttributeError:
+    except (AttributeError, ValueError, TypeError):
+        # AttributeError - unknown field name.
+        # ValueError - malformed template such as a single '{'.
+        # TypeError - template is not a string.
         #        raise        # uncomment for detailed backtrace
         # use %r to avoid expanding tabs
         raise SystemExit("Error with template: " + "%r" % template)
